@@ -13,8 +13,8 @@ class Key:
 
 
 def get_key_from_line(line: str) -> Key:
-    reg = re.compile("([A-Z]|\_|0){3,32} ([a-fA-F]|[0-9]){64} ([a-fA-F]|[0-9])*")
-    res = reg.match(line)
+    reg = re.compile("([A-Z]|\_|0){3,32} ([a-fA-F]|[0-9]){64} (([a-fA-F]|[0-9]){2})+ *")
+    res = reg.fullmatch(line)
     if res is not None:
         return Key(line)
     return None
